@@ -534,6 +534,9 @@ class KTHierarchyPropagator:
         """
         rhot = DensityMatrixEvolution(timeaxis=self.timeaxis, rhoi=rhoi)
         
+        # every propagation starts from an empty hierarchy
+        self.hy.reset_ados()
+        
         if free_hierarchy:
             
             # first act with lifting superoperators
